@@ -112,23 +112,26 @@ def check_env_modes(ctx, env, name, idx):
         "terminal": lambda s, a, k: env.terminal(env.transition(s, a, key=k), key=k),
         "truncate": lambda s, a, k: env.truncate(env.transition(s, a, key=k)),
     }
-    B = int(rng.choice([1, 3, 7]))
+    B = int(rng.choice([1, 3] if ctx.quick else [1, 3, 7]))
     key = jr.key(int(rng.integers(0, 2**31)))
     ks = jr.split(key, B)
     # reachable states: a few random steps from reset
     states, actions = [], []
+    jstep = eqx.filter_jit(lambda s, a, k: env.transition(s, a, key=k))
     for b in range(B):
         s = env.initial(key=ks[b])
         for t in range(int(rng.integers(0, 6))):
             kk = jr.fold_in(ks[b], t)
-            s = env.transition(s, sample_action(rng, env, kk), key=kk)
+            s = jstep(s, sample_action(rng, env, kk), kk)
         states.append(s)
         actions.append(sample_action(rng, env, jr.fold_in(ks[b], 99)))
     S = jax.tree.map(lambda *xs: jnp.stack(xs), *states)
     A = jnp.stack([jnp.asarray(a) for a in actions])
     for fname, f in fns.items():
-        eager = [f(states[b], actions[b], ks[b]) for b in range(B)]
-        jitted = [eqx.filter_jit(f)(states[b], actions[b], ks[b]) for b in range(B)]
+        n_eager = 1 if ctx.quick else B      # eager diffrax solves are slow: one element in quick
+        jf = eqx.filter_jit(f)
+        jitted = [jf(states[b], actions[b], ks[b]) for b in range(B)]
+        eager = [f(states[b], actions[b], ks[b]) if b < n_eager else jitted[b] for b in range(B)]
         vm = eqx.filter_vmap(f)(S, A, ks)
         case = {"kind": "env-modes", "env": name, "function": fname, "batch": B}
         ctx.case({**case, "idx": idx}, True, sample=case if idx == 0 and fname == "transition" else None)
